@@ -124,6 +124,9 @@ def load_cases(c):
         names = [n for n in names if n in keep]
     for n in names:
         p = os.path.join(cg, n)
+        if os.path.isdir(p):
+            p = os.path.join(p, "wit")          # crates/test: `<dir>/wit` holds the package
+            if not os.path.isdir(p): continue   # (empty directory: submodule not checked out)
         cases.append((f"codegen:{n}", "codegen", "p:" + hx(p), "-", p, "tests/codegen", None))
     nseed = 60 if c.tier == "quick" else 700
     for i in range(nseed):
